@@ -306,7 +306,8 @@ let run_v2 c =
     end in
   let line = "rx=" ^ string_of_int rxlen ^ " sid=" ^ sid ^ " dead=" ^ string_of_bool01 dead ^ " outs=" ^ outs_str (Model.conn_outs r)
              ^ " tx=" ^ tx ^ " txlen=" ^ txlen in
-  (line, Model.v2_expected ids false pkts, flips <> [], tx)
+  (* a peer that announces a packet without sending it is treated like a tampered stream: only a prefix is due *)
+  (line, Model.v2_expected ids false pkts, flips <> [] || !trunc <> None, tx)
 
 let run_v2rr c =
   let magic = magic_of (num c) in
@@ -396,7 +397,7 @@ let holds _args case impl =
           if itx <> "-" && tx <> "-" && itx <> tx then "fail v2-sender-encoding-differs-from-bip324" else "ok"
         end
     | "v2rr" ->
-        let (_, eb, ea) = run_v2rr c in
+        let (_, ea, eb) = run_v2rr c in   (* what A / B must deliver: the other side's messages *)
         let ea = List.map digest_out ea and eb = List.map digest_out eb in
         let ga = parse_outs (field impl "a_outs") and gb = parse_outs (field impl "b_outs") in
         if field impl "sid" <> "1" then "fail v2-session-id-mismatch"
